@@ -182,6 +182,7 @@ fn scenario(t_create: i64, t_close: i64, adv_s: u64, route: Route) -> Observed {
         let decoy = ManuallyAdvancedTimeSource::at_time(sys(77_000_000_000_000_000));
         let inner = set_time_source(TimeSource::custom(decoy));
         drop(inner);
+        crate::time_source_scope_left_by_a_panic();
     }
     let mut stamp = || {
         calls += 1;
